@@ -27,6 +27,14 @@ theorem inc_le_last : ∀ (l : List Nat) (i : Nat), Inc (i :: l) → i ≤ lastO
   | nil => intro i _; exact Nat.le_refl _
   | cons p ps ih => intro i h; exact Nat.le_trans (Nat.le_of_lt h.1) (ih p h.2)
 
+theorem chain_le_last (a : Nat) (t : List Nat) (h : Inc (a :: t)) (x : Nat) (hx : x ∈ a :: t) : x ≤ lastOf a t := by
+  induction t generalizing a with
+  | nil => simp at hx; subst hx; exact Nat.le_refl _
+  | cons p ps ih =>
+    rcases List.mem_cons.mp hx with rfl | hx
+    · exact inc_le_last (p :: ps) x h
+    · exact ih p h.2 hx
+
 theorem inc_append : ∀ (l1 l2 : List Nat) (i : Nat), Inc (i :: l1) → Inc (lastOf i l1 :: l2) → Inc (i :: (l1 ++ l2)) := by
   intro l1
   induction l1 with
@@ -108,8 +116,8 @@ theorem dir_max : Dir (better (α := α) 1) (· ≥ ·) where
   add := fun h1 h2 => add_le_add h1 h2
 end inst
 
-section dir
-variable {α : Type} [AddCommMonoid α] {better : α → α → Bool} {R : α → α → Prop}
+section dirAdd
+variable {α : Type} [Add α] {better : α → α → Bool} {R : α → α → Prop}
 
 /-- the scan returns something at least as good as its start value and as every candidate -/
 theorem scan_best (hd : Dir better R) (f : Nat → α) (lo n : Nat) (acc : α × Option Nat) :
@@ -142,6 +150,11 @@ theorem opt_le_cost (hd : Dir better R) (C : Nat → Nat → α) (f i j : Nat) :
   cases f with
   | zero => exact hd.refl _
   | succ f => exact (scan_best hd _ _ _ _).1
+
+end dirAdd
+
+section dir
+variable {α : Type} [AddCommMonoid α] {better : α → α → Bool} {R : α → α → Prop}
 
 /-- **bound**: `D[i,j]` is at least as good as the summed cost of every increasing chain from `i` to `j` -/
 theorem opt_bound (hd : Dir better R) (C : Nat → Nat → α) :
